@@ -429,7 +429,44 @@ func runC12Readers(c *Ctx) []Violation {
 	ww.Input = input
 	env.Apply()
 	rd := simio.NewReader(input, plan)
-	tr := run.Drive(ww, rd, run.Opts{Audit: true, MaxReads: 600})
+	// pool discipline: at no point is a node in the pool twice (it would be handed out twice). Looked
+	// at before every Read and when the transform is over: the pool is drained, inspected and
+	// refilled so that it hands the nodes out again in the same order.
+	doubleRelease := ""
+	inspectPool := func() {
+		// (plain builds only: in race builds sync.Pool drops items at random, a double release may or may not stay visible)
+		if !env.NodePool || doubleRelease != "" || c.Race {
+			return
+		}
+		pooled := idr.VerifDrainNodePool()
+		seen := make(map[*idr.Node]bool, len(pooled))
+		for _, n := range pooled {
+			if seen[n] {
+				doubleRelease = fmt.Sprintf("%d nodes in the pool; node %p (last ID %d) is among them more than once", len(pooled), n, n.ID)
+			}
+			seen[n] = true
+		}
+		c.Count("pooled-nodes-checked", int64(len(pooled)))
+		idr.VerifRefillNodePool(pooled)
+	}
+	if sched.Instrumented {
+		// ... and, in the instrumented flavour, between the statements of the library: a node released
+		// twice and taken out again twice a moment later never shows at the coarser points
+		phase, n := c.T.Intn("c12.pool-probe.phase", 5), 0
+		sched.StatementProbe = func() {
+			if n++; n%5 == phase {
+				inspectPool()
+			}
+		}
+		defer func() { sched.StatementProbe = nil }()
+	}
+	tr := run.Drive(ww, rd, run.Opts{Audit: true, MaxReads: 600, Between: inspectPool})
+	sched.StatementProbe = nil
+	inspectPool()
+	if doubleRelease != "" {
+		return []Violation{viol("C12.pool-double-release", w.Format+": a node was released into the pool twice (it would be handed out twice)",
+			"world: "+w.Name, fmt.Sprintf("storage faults: %v", desc), "delivery plan: "+plan.String(), doubleRelease)}
+	}
 	c.Events += int64(rd.Stats.Reads + len(tr.Entries))
 	c.SigMix(plan.Sig())
 	audited := 0
